@@ -173,3 +173,14 @@ def run(ctx):
     var = norm(par.targets[0]) if isinstance(par, ast.Assign) else None
     ok = ok and [norm(x) for x in gc[0].args] == [var, table] and any(isinstance(n, (ast.Assign, ast.AnnAssign)) and norm(n.target if isinstance(n, ast.AnnAssign) else n.targets[0]) == table and norm(n.value) == "{}" for n in walk_local(gm.node))
     ctx.check("C20.R4", "gen_data(parse_schema(schema, T), T) with T a fresh dict", ok, gm.where(), f"generate_many: {[norm(c) for c in pc + gc]}", "references (incl. recursive ones) under a top-level array, map or union of non-records cannot be resolved when the table is taken from the parsed schema's private copy")
+
+    ctx.rule("C20.R5", "generated values never come from a schema's `default` attribute (defaults are written in JSON form: a bytes or fixed default is a str, a record default a dict of JSON forms)", floor=1)
+    reads = []
+    for fn in [g] + [x for x in g.mod.all_funcs if x is not g and any(isinstance(c, ast.Call) and isinstance(c.func, ast.Name) and c.func.id == x.name for c in ast.walk(g.node))]:
+        for n in ast.walk(fn.node):
+            if isinstance(n, ast.Subscript) and isinstance(n.ctx, ast.Load) and isinstance(n.slice, ast.Constant) and n.slice.value == "default":
+                reads.append((fn, n))
+            elif isinstance(n, ast.Call) and isinstance(n.func, ast.Attribute) and n.func.attr in ("get", "pop") and n.args and isinstance(n.args[0], ast.Constant) and n.args[0].value == "default":
+                reads.append((fn, n))
+    ctx.check("C20.R5", "gen_data reads no `default` attribute", not reads, reads[0][0].where(reads[0][1]) if reads else g.where(), f"{reads[0][0].qualname}: {norm(reads[0][1])}" if reads else "", "a default taken from the schema is in JSON form, not in the Python data form the writers and validate expect (bytes / fixed / decimal / nested records differ): the generated value does not conform")
+
